@@ -124,6 +124,13 @@ def run_py(case):
                     except BaseException as e:      # noqa
                         cnt['resize_raised'] += 1
                         ok = False
+                        if tl < r or l < tr:
+                            cls = 'disjoint-formats'              # source and target share no bit position
+                        elif tl == tr and signed and rs == 'ROUND':
+                            cls = 'S:one-bit-target:ROUND'
+                        else:
+                            cls = f"{kind}:{rs}:{os_}:L{rel(tl, l)}:R{rel(tr, r)}"
+                        report(f"resize-raises:{cls}", f"{kind}Fixed[{l}:{r}].resize({tl}, {tr}, {rs}, {os_}) raised {type(e).__name__}: {str(e)[:100]}")
                         break
                     want = ref_resize(num(x), signed, tl, tr, rs, os_)
                     cnt['py_comparisons'] += 1
@@ -166,47 +173,50 @@ def run_py(case):
                     break
             if ok:
                 sigs.append(digest('arith', signed, l, r, bl, br, op))
-    # ---- construction and equality
+    # ---- construction and equality (a representable value must be constructible: an exception is a violation too)
     T = (std.SFixed if signed else std.UFixed)[l:r]
-    for raw, x in xs:
-        v = num(x)
+
+    def attempt(what, fn):
+        cnt['py_comparisons'] += 1
         try:
-            cnt['py_comparisons'] += 1
-            if v.denominator == 1:
-                if num(T(int(v))) != v:
-                    report(f"construct:{kind}:from-int", f"{kind}Fixed[{l}:{r}]({int(v)}) represents {num(T(int(v)))}")
-                if not (x == int(v)):
-                    report(f"equality:{kind}:int", f"{kind}Fixed[{l}:{r}] with value {v} does not compare equal to {int(v)}")
-            if num(T(float(v))) != v:
-                report(f"construct:{kind}:from-float", f"{kind}Fixed[{l}:{r}]({float(v)}) represents {num(T(float(v)))}")
-            if not (x == float(v)):
-                report(f"equality:{kind}:float", f"{kind}Fixed[{l}:{r}] with value {v} does not compare equal to {float(v)}")
-            for (tl, tr) in fs:
-                if tl >= l and tr <= r:
-                    TT = (std.SFixed if signed else std.UFixed)[tl:tr]
-                    cnt['py_comparisons'] += 1
-                    if num(TT(x)) != v:
-                        report(f"construct:{kind}:from-other-format", f"{kind}Fixed[{tl}:{tr}]({kind}Fixed[{l}:{r}] = {v}) represents {num(TT(x))}")
+            return fn()
         except (KeyboardInterrupt, SystemExit):
             raise
         except BaseException as e:      # noqa
             cnt['construct_raised'] += 1
+            report(f"construct-raises:{kind}:{what}", f"{kind}Fixed[{l}:{r}]: {what} raised {type(e).__name__}: {str(e)[:120]}")
+            return None
+    for raw, x in xs:
+        v = num(x)
+        if v.denominator == 1:
+            z = attempt('from-int', lambda: T(int(v)))
+            if z is not None and num(z) != v:
+                report(f"construct:{kind}:from-int", f"{kind}Fixed[{l}:{r}]({int(v)}) represents {num(z)}")
+            e = attempt('equality-int', lambda: bool(x == int(v)))
+            if e is False:
+                report(f"equality:{kind}:int", f"{kind}Fixed[{l}:{r}] with value {v} does not compare equal to {int(v)}")
+        z = attempt('from-float', lambda: T(float(v)))
+        if z is not None and num(z) != v:
+            report(f"construct:{kind}:from-float", f"{kind}Fixed[{l}:{r}]({float(v)}) represents {num(z)}")
+        e = attempt('equality-float', lambda: bool(x == float(v)))
+        if e is False:
+            report(f"equality:{kind}:float", f"{kind}Fixed[{l}:{r}] with value {v} does not compare equal to {float(v)}")
+        for (tl, tr) in fs:
+            if tl >= l and tr <= r:
+                TT = (std.SFixed if signed else std.UFixed)[tl:tr]
+                z = attempt('from-other-format', lambda: TT(x))
+                if z is not None and num(z) != v:
+                    report(f"construct:{kind}:from-other-format", f"{kind}Fixed[{tl}:{tr}]({kind}Fixed[{l}:{r}] = {v}) represents {num(z)}")
     if r <= 0:
-        # construction from Signed / Unsigned integers
+        # construction from Signed / Unsigned integers that fit into the integer part
         for iw in (1, 2, 3):
+            if (l + 1 < iw) if signed else (l + 1 < iw):
+                continue
             for iv in raws(signed, iw):
-                if l - 0 + 1 < iw + (0 if signed else 0):
-                    continue
-                try:
-                    src = (Signed if signed else Unsigned)[iw](iv)
-                    z = T(src)
-                    cnt['py_comparisons'] += 1
-                    if num(z) != iv:
-                        report(f"construct:{kind}:from-{'Signed' if signed else 'Unsigned'}", f"{kind}Fixed[{l}:{r}]({src!r}) represents {num(z)}")
-                except (KeyboardInterrupt, SystemExit):
-                    raise
-                except BaseException:      # noqa
-                    cnt['construct_raised'] += 1
+                src = (Signed if signed else Unsigned)[iw](iv)
+                z = attempt('from-' + ('Signed' if signed else 'Unsigned'), lambda: T(src))
+                if z is not None and num(z) != iv:
+                    report(f"construct:{kind}:from-{'Signed' if signed else 'Unsigned'}", f"{kind}Fixed[{l}:{r}]({src!r}) represents {num(z)}")
     return result(sig=sigs or None, viol=viol, cnt=dict(cnt),
                   sample={'format': f"{kind}Fixed[{l}:{r}]", 'values': len(xs), 'ok_groups': len(sigs)} if (l + r) % 3 == 0 else None)
 
@@ -250,7 +260,15 @@ class {cname}(Entity):
         except Rejected as r_:
             cnt['rt_rejected'] += 1
             cnt['rt_rejected:' + r_.msg[:50].replace('\n', ' ')] += 1
-            return result(cnt=dict(cnt))
+            # the same two classes as at Python level (known findings); any other rejection of this wrapper is a violation
+            if bl < r or l < br:
+                m = 'resize-raises:disjoint-formats'
+            elif bl == br and signed and rs == 'ROUND':
+                m = 'resize-raises:S:one-bit-target:ROUND'
+            else:
+                m = f"resize-raises:{kind}:{rs}:{os_}:L{rel(bl, l)}:R{rel(br, r)}"
+            return result(viol=[violation(m, f"emitted logic: wrapper with {kind}Fixed[{l}:{r}].resize({bl}, {br}, {rs}, {os_}) is rejected: "
+                                             f"{r_.etype}: {r_.msg[:120]}", source=src)], cnt=dict(cnt))
     finally:
         unload(mod)
     try:
